@@ -1,7 +1,9 @@
 (* C14 — what the bootstrapped state has to be.  Written from the property and from what
    state.Store.Bootstrap / the block executor expect of a state "after block h", NOT from
-   stateprovider.go: this file uses the records of Model.v (lightblock, sstate, res) and nothing
-   of its transcriptions (lc_state, lc_apphash, lc_commit, lrpc_params).  NO proofs here; the
+   stateprovider.go / state/store.go: this file uses the records of Model.v (lightblock, sstate,
+   res, lookups) and nothing
+   of its transcriptions (lc_state, lc_apphash, lc_commit, lrpc_params, store_bootstrap, store_save,
+   load_validators, load_params).  NO proofs here; the
    relation to the model of State() is proved in PSpec.v and stated in Props.v; Exec.v evaluates
    [spec_state_b] on the answers of the real lightClientStateProvider (clause 17).
 
@@ -70,6 +72,60 @@ Definition app_agrees (snap_height : Z) (trusted_hash : bytes) (st : sstate)
                       (appv : Z) (hash : bytes) (height : Z) : Prop :=
   appv = st_vapp st /\ hash = trusted_hash /\ height = snap_height.
 
+(* ---- what the node's stores have to answer after startStateSync bootstrapped them ----
+
+   node.startStateSync hands the state and commit SyncAny returned to stateStore.Bootstrap and
+   blockStore.SaveSeenCommit; from then on the node (consensus, evidence verification, RPC
+   /validators, light-block serving, rollback) reads validator sets and params by HEIGHT.  What
+   these lookups have to return is the chain's, i.e. what the light client vouches for at that
+   height - written here against the lookups only ([lookups] is a record of four functions),
+   not against state/store.go. *)
+
+Definition chain_vals (lc : Z -> res lightblock) (z : Z) : bytes :=
+  match lc z with ROk b => lb_vals b | _ => [] end.
+Definition chain_params (lc : Z -> res lightblock) (z : Z) : bytes :=
+  match lc z with ROk b => lb_conshash b | _ => [] end.
+
+(* right after Bootstrap(state) and SaveSeenCommit(h, commit) for a snapshot of height h *)
+Definition bootstrapped_store_spec (lc : Z -> res lightblock) (h : Z) (st : sstate) (lk : lookups) : Prop :=
+  (* every validator lookup in [h, h+2] returns the vouched set of THAT height *)
+  (forall z, h <= z <= h + 2 -> exists b, vouched lc z b /\ lk_vals lk z = Some (lb_vals b)) /\
+  (* the params the first block after the snapshot is validated with *)
+  (exists cur, vouched lc (h + 1) cur /\ lk_params lk (h + 1) = Some (Some (lb_conshash cur))) /\
+  (* the state record is the bootstrapped state *)
+  lk_state lk = Some st /\
+  (* the seen commit of the snapshot height is the vouched commit of block h *)
+  (exists last, vouched lc h last /\ lk_seen lk h = Some (lb_commit last)).
+
+(* a successor state as the block executor (updateState) derives it from [prev] by a block whose
+   effects are the chain's: the sets shift by one, the new NextValidators are those the chain has
+   at t+3, LastHeightValidatorsChanged moves to t+3 when block t+1 changed the set and stays
+   otherwise (then the chain's sets at t+2 and t+3 are equal); params alike one height earlier *)
+Definition follows_chain (lc : Z -> res lightblock) (prev next : sstate) : Prop :=
+  let t := st_last_height prev in
+  st_last_height next = t + 1 /\
+  st_lastvals next = st_vals prev /\ st_vals next = st_nextvals prev /\
+  st_nextvals next = chain_vals lc (t + 3) /\
+  (st_lhvc next = t + 3 \/
+   (st_lhvc next = st_lhvc prev /\ chain_vals lc (t + 3) = chain_vals lc (t + 2))) /\
+  st_params next = chain_params lc (t + 2) /\
+  (st_lhcpc next = t + 2 \/
+   (st_lhcpc next = st_lhcpc prev /\ chain_params lc (t + 2) = chain_params lc (t + 1))).
+
+Fixpoint follows_chain_all (lc : Z -> res lightblock) (prev : sstate) (succs : list sstate) : Prop :=
+  match succs with
+  | [] => True
+  | t :: r => follows_chain lc prev t /\ follows_chain_all lc t r
+  end.
+
+(* after the states up to height t have been saved on top of the bootstrap at h: every validator
+   lookup in [h, t+2] and every params lookup in [h+1, t+1] still returns the chain's value of that
+   height (records that only point to the height of the last change resolve correctly, through
+   the records Bootstrap wrote if need be) *)
+Definition store_tracks_chain (lc : Z -> res lightblock) (h t : Z) (lk : lookups) : Prop :=
+  (forall z, h <= z <= t + 2 -> lk_vals lk z = Some (chain_vals lc z)) /\
+  (forall z, h + 1 <= z <= t + 1 -> lk_params lk z = Some (Some (chain_params lc z))).
+
 (* ---- the same, decided (Exec.v runs these on the implementation's answers) ---- *)
 
 Definition in_range (z : Z) : bool := (0 <? z) && (z <? 2 ^ 63).
@@ -97,3 +153,55 @@ Definition spec_commit_b (lc : Z -> res lightblock) (h : Z) (cm : commit) : bool
 Definition app_agrees_b (snap_height : Z) (trusted_hash : bytes) (st : sstate)
                         (appv : Z) (hash : bytes) (height : Z) : bool :=
   (appv =? st_vapp st) && bytes_eqb hash trusted_hash && (height =? snap_height).
+
+(* lookups *)
+Definition obytes_eqb (a b : option bytes) : bool :=
+  match a, b with Some x, Some y => bytes_eqb x y | None, None => true | _, _ => false end.
+
+(* LoadValidators(z) answered [ans]: the vouched set of height z *)
+Definition spec_vals_lookup_b (lc : Z -> res lightblock) (z : Z) (ans : option bytes) : bool :=
+  in_range z && match lc z with ROk b => obytes_eqb ans (Some (lb_vals b)) | _ => false end.
+(* LoadConsensusParams(z) answered [ans] *)
+Definition spec_params_lookup_b (lc : Z -> res lightblock) (z : Z) (ans : option (option bytes)) : bool :=
+  in_range z && match lc z, ans with ROk b, Some a => obytes_eqb a (Some (lb_conshash b)) | _, _ => false end.
+(* LoadSeenCommit(z) answered [ans] *)
+Definition spec_seen_lookup_b (lc : Z -> res lightblock) (z : Z) (ans : option commit) : bool :=
+  in_range z && match lc z with ROk b => obytes_eqb ans (Some (lb_commit b)) | _ => false end.
+
+Definition follows_chain_b (lc : Z -> res lightblock) (prev next : sstate) : bool :=
+  let t := st_last_height prev in
+  (st_last_height next =? t + 1)
+  && bytes_eqb (st_lastvals next) (st_vals prev) && bytes_eqb (st_vals next) (st_nextvals prev)
+  && bytes_eqb (st_nextvals next) (chain_vals lc (t + 3))
+  && ((st_lhvc next =? t + 3)
+      || ((st_lhvc next =? st_lhvc prev) && bytes_eqb (chain_vals lc (t + 3)) (chain_vals lc (t + 2))))
+  && bytes_eqb (st_params next) (chain_params lc (t + 2))
+  && ((st_lhcpc next =? t + 2)
+      || ((st_lhcpc next =? st_lhcpc prev) && bytes_eqb (chain_params lc (t + 2)) (chain_params lc (t + 1)))).
+
+Definition sstate_eqb (a b : sstate) : bool :=
+  (st_initial a =? st_initial b) && (st_vblock a =? st_vblock b) && (st_vapp a =? st_vapp b)
+  && (st_last_height a =? st_last_height b) && (st_last_time a =? st_last_time b)
+  && bytes_eqb (st_last_blockid a) (st_last_blockid b)
+  && bytes_eqb (st_apphash a) (st_apphash b) && bytes_eqb (st_results a) (st_results b)
+  && bytes_eqb (st_lastvals a) (st_lastvals b) && bytes_eqb (st_vals a) (st_vals b)
+  && bytes_eqb (st_nextvals a) (st_nextvals b) && (st_lhvc a =? st_lhvc b)
+  && bytes_eqb (st_params a) (st_params b) && (st_lhcpc a =? st_lhcpc b).
+
+Definition ostate_eqb (a : option sstate) (b : sstate) : bool :=
+  match a with Some x => sstate_eqb x b | None => false end.
+
+Fixpoint zrange (lo : Z) (n : nat) : list Z :=
+  match n with O => [] | S k => lo :: zrange (lo + 1) k end.
+
+(* bootstrapped_store_spec, decided on a record of lookups *)
+Definition spec_boot_b (lc : Z -> res lightblock) (h : Z) (st : sstate) (lk : lookups) : bool :=
+  forallb (fun z => spec_vals_lookup_b lc z (lk_vals lk z)) [h; h + 1; h + 2]
+  && spec_params_lookup_b lc (h + 1) (lk_params lk (h + 1))
+  && ostate_eqb (lk_state lk) st
+  && spec_seen_lookup_b lc h (lk_seen lk h).
+
+(* store_tracks_chain (with every height of the window vouched for), decided *)
+Definition spec_tracks_b (lc : Z -> res lightblock) (h t : Z) (lk : lookups) : bool :=
+  forallb (fun z => spec_vals_lookup_b lc z (lk_vals lk z)) (zrange h (Z.to_nat (t + 3 - h)))
+  && forallb (fun z => spec_params_lookup_b lc z (lk_params lk z)) (zrange (h + 1) (Z.to_nat (t + 1 - h))).
